@@ -119,6 +119,23 @@ def c08_2(R):
                 R.ok("vsock-guard-disarm-sites", owner_fn(b))
             else:
                 R.fail([owner_fn(b), "disarm(VirtualSocket.drop_guard)"], "a connection's drop guard is disarmed at an unaudited site: its table slot will never be released", where=t.where(), instance="vsock-guard-disarm-sites")
+    # the guard primitive: disarm() empties the message slot; drop() sends exactly the stored message, once
+    gd = R.body("utils::DropGuardSendBeforeDeath::disarm")
+    if any(written_field(gd, s_) == "DropGuardSendBeforeDeath.msg" and s_.rv.ops and classify(gd, s_.rv.ops[0]) == "None" for s_ in gd.stmts()):
+        R.ok("guard-primitive", gd.name, "msg = None")
+    else:
+        R.fail([gd.name, "does-not-clear(msg)"], "DropGuardSendBeforeDeath::disarm no longer empties the message: a disarmed guard still posts its Shutdown / ConnectDropped request", where=gd.where(), instance="guard-primitive")
+    dr = R.body("<utils::DropGuardSendBeforeDeath as std::ops::Drop>::drop")
+    snd = [t for t in dr.calls() if call_matches(t, ("UnboundedSender::send",))]
+    okd = False
+    for t in snd:
+        m = trace(dr, t.args[1])
+        if "Some" in m.variants and m.kind == "call" and call_matches(m.root[1], ("Option::take",)) and trace(dr, m.root[1].args[0]).last_field == "DropGuardSendBeforeDeath.msg":
+            okd = True
+    if okd:
+        R.ok("guard-primitive", dr.name, "sends msg.take() when it is Some")
+    else:
+        R.fail([dr.name, "drop-does-not-send(msg.take())"], "dropping an armed guard no longer sends its message: the connection's table slot / connect slot is never released", where=dr.where(), instance="guard-primitive")
     sd = R.body("stream_dispatch::UtpStreamStarter::disarm")
     if not any(call_matches(t, ("utils::DropGuardSendBeforeDeath::disarm",)) and trace(b2, t.args[0]).last_field == "VirtualSocket.drop_guard" for b2 in [sd] + F.closures_of(sd.name) for t in b2.calls()):
         R.fail([sd.name, "does-not-disarm(VirtualSocket.drop_guard)"], "UtpStreamStarter::disarm no longer disarms the connection's drop guard: dropping the never-started starter posts Shutdown(recv_key), "
